@@ -135,7 +135,8 @@ def run(mod, tier, seed, replay=None):
             n_skipped += 1
         else:
             n_harness += 1
-            sys.stderr.write("HARNESS-ERROR case %d: %s\n" % (c["idx"], json.dumps(r.get("result"))[:3000]))
+            if n_harness <= 3:
+                sys.stderr.write("HARNESS-ERROR case %d: %s\n" % (c["idx"], str((r.get("result") or {}).get("traceback", r.get("result")))[-1500:]))
 
     extra = {}
     if hasattr(mod, "offline") and not replay:
